@@ -55,4 +55,14 @@ theorem tryDuplicate_leaf_ok (d : Nat) (h : d ≤ Gen.DUPLICATE_DEPTH_LIMIT) (c 
   have : ¬ d > 100 := by have : d ≤ 100 := h; omega
   simp [Node.tryDuplicate, this]
 
+#print axioms isHighSurrogate_src
+#print axioms isLowSurrogate_src
+#print axioms surrogate_blocks
+#print axioms codePointFromSurrogates_src
+#print axioms utf8_cont_bits
+#print axioms w2_src
+#print axioms duplicate_depth_limit
+#print axioms tryDuplicate_gives_up
+#print axioms tryDuplicate_leaf_ok
+
 end Regress.SourceConsts
